@@ -228,6 +228,19 @@ def rules(ck, P):
                  "the block index named by the header is read and decoded unconditionally, with `?`, before the reader is returned",
                  "the block index is not decoded unconditionally before Ok", ir.loc(b))
 
+    # an unfinished versatiles file carries an EMPTY block-index range: the reader must not accept an empty buffer as an index
+    fbb = [x for x in P.bodies if x["q"].endswith("block_index::BlockIndex::from_brotli_blob")]
+    if ck.anchor("R-COMMIT-ORDER", "BlockIndex::from_brotli_blob", fbb, 1):
+        from . import mvt
+        b = fbb[0]
+
+        def dec(n):
+            q_ = n.get("q") or ""
+            return 1 if n.get("k") == "call" and q_.endswith(("compression::decompress_brotli", "compression::decompress")) else None
+        counts = mvt.exit_counts(P, b, dec)
+        ck.check(counts == {1}, "R-COMMIT-ORDER", b["q"] + "|f-empty-index-rejected", "every successful decode of a block index goes through the brotli decoder (which rejects the empty buffer of an unfinished file)",
+                 "a block index can be returned without passing the buffer through the brotli decoder (decoder calls per successful path: %s): the empty block-index range of an interrupted write opens as a valid, empty container" % sorted(counts), ir.loc(b))
+
 
 def _root(n):
     n = ir.strip(n)
